@@ -133,6 +133,19 @@ def oracle_rotations(case):
     if len(matching_starts(cls.structure(), seq)) != 1:
         return None
     base, _ = _info(cls, seq)
+    # the very record object that was typed (and membership-tested) is then rotated with >> / <<
+    rec0 = implutil.mk_circular(seq, "r")
+    cls(rec0).is_valid()
+    _ = seq[:3] in rec0
+    for k in case["ks"][:12]:
+        for rot in (rec0 >> k, rec0 << (-k)):
+            t = implutil.typed_info(cls(rot))
+            got = {f: t.get(f) for f in ("valid", "up", "down", "target", "placeholder")}
+            if got != base:
+                diff = [f for f in base if base[f] != got[f]]
+                return {"signature": "C02:typed-then-rotated:" + ",".join(diff),
+                        "what": "%s: after typing a record and rotating that same object by %d it reports %s, unrotated %s"
+                                % (cls.__name__, k, {f: got[f] for f in diff}, {f: base[f] for f in diff}), "k": k}
     for k in case["ks"]:
         got, _ = _info(cls, gens.rotate(seq, k))
         if got != base:
